@@ -24,7 +24,7 @@ ASSUMPTIONS = ['(a) 1e-7*total, (b) sums rtol 1e-9 and negatives >= -1e-12*total
                'RDA / IG are driven with projections of >= 2 cells and not with all-zero query matrices (scipy eigsh refuses a 1x1 operator and a zero operator); MD gets both']
 PLAN = {
     'quick': dict(cases=240, budget_s=75, case_timeout=300, min_cases=60),
-    'thorough': dict(cases=6000, budget_s=1800, case_timeout=600, min_cases=1200),
+    'thorough': dict(cases=4000, budget_s=900, case_timeout=600, min_cases=666),
 }
 CLASSES = ['empty', 'uniform_consistent', 'zero_queries', 'ordinary', 'ordinary', 'boundary', 'single_attr']
 ITERS = [1, 2, 3, 10, 100, 1000]
